@@ -111,7 +111,10 @@ def oracle(seq, outs):
         tab = parse_table(body)
         idsv = [x[0] for x in tab]
         if o == "A":
-            both = any(x[1] == "-" for x in prev_tab) and any(x[1] == "+" for x in prev_tab)
+            # class of KF-C17-two-previous: the launch demotes a current job while a previous one exists, or the
+            # table already carries two previous marks from such a launch
+            both = (any(x[1] == "-" for x in prev_tab) and any(x[1] == "+" for x in prev_tab)) or \
+                sum(1 for x in prev_tab if x[1] == "-") > 1
             in_class = not canonical
             live.append(fresh)
             fresh += 1
